@@ -6,6 +6,7 @@
 //!   zkmc worker                                  (internal) isolated worker for untrusted-input sweeps
 mod common;
 mod edits;
+mod sweep;
 mod zk;
 mod c01;
 mod c02;
@@ -22,6 +23,9 @@ mod c12;
 mod worker;
 
 use common::Env;
+
+#[global_allocator]
+static GLOBAL: worker::Counting = worker::Counting;
 use mccore::{Ctx, Out, Tier};
 use std::sync::atomic::{AtomicBool, Ordering};
 
@@ -79,6 +83,10 @@ fn main() {
     let out = Out::capture();
     mccore::quiet_panics();
     let seed: u64 = std::env::var("VERIF_SEED").ok().and_then(|s| s.parse().ok()).unwrap_or(0);
+    if args.get(1).map(|s| s.as_str()) == Some("c07-child") {
+        c07::child_main(&args[2..], &out);
+        return;
+    }
     let code = match args.get(1).map(|s| s.as_str()) {
         Some("gate") => match refbbs::fixtures::gate(std::path::Path::new("/repo")) {
             Ok(g) => {
